@@ -45,12 +45,14 @@ pub fn gen_certs_here(dir: &Path) -> Result<()> {
 pub struct ServerHandle {
     pub addr: SocketAddr,
     rt: Option<tokio::runtime::Runtime>,
+    /// receives one message when `Server::listen` returns (graceful shutdown finished)
+    pub listen_done: Option<std::sync::mpsc::Receiver<std::result::Result<(), String>>>,
 }
 
 impl ServerHandle {
     /// a handle that owns no server (used while swapping servers on a port)
     pub fn placeholder(addr: SocketAddr) -> Self {
-        ServerHandle { addr, rt: None }
+        ServerHandle { addr, rt: None, listen_done: None }
     }
     /// stop the server at once (drops its runtime, releasing the UDP port)
     pub fn stop(mut self) {
@@ -82,11 +84,13 @@ pub fn start_server(certs: &Path, bind: &str) -> Result<ServerHandle> {
     ]);
     let rt = tokio::runtime::Builder::new_multi_thread().worker_threads(4).enable_all().build()?;
     let (tx, rx) = std::sync::mpsc::channel();
+    let (done_tx, done_rx) = std::sync::mpsc::channel();
     rt.spawn(async move {
         match Server::try_from(args) {
             Ok(server) => {
                 let _ = tx.send(server.addr().map_err(|e| e.to_string()));
-                let _ = server.listen().await;
+                let r = server.listen().await;
+                let _ = done_tx.send(r.map_err(|e| e.to_string()));
             }
             Err(e) => {
                 let _ = tx.send(Err(e.to_string()));
@@ -95,7 +99,7 @@ pub fn start_server(certs: &Path, bind: &str) -> Result<ServerHandle> {
     });
     // never drop the runtime implicitly: that panics when called from an asynchronous context
     match rx.recv_timeout(Duration::from_secs(10)) {
-        Ok(Ok(addr)) => Ok(ServerHandle { addr, rt: Some(rt) }),
+        Ok(Ok(addr)) => Ok(ServerHandle { addr, rt: Some(rt), listen_done: Some(done_rx) }),
         Ok(Err(e)) => {
             rt.shutdown_background();
             Err(anyhow!(e))
